@@ -951,7 +951,7 @@ def _convert_to_hill_notation(atoms):
     Return elements listed in standard order.
     """
     #return [(atoms[el], el) for el in sorted(atoms.keys(), cmp=_hill_compare)]
-    return [(atoms[el], el) for el in sorted(atoms.keys(), key=_hill_key)]
+    return tuple((atoms[el], el) for el in sorted(atoms.keys(), key=_hill_key))
 
 
 def _str_atoms(seq):
